@@ -29,6 +29,10 @@ def run_property(prop, tier, root=None, quiet=False):
             rep.anchor_missing(name, e)
         except TooComplex as e:
             rep.anchor_missing(name, f'unrecognised-shape: {e}')
+        except (KeyError, IndexError, TypeError, AttributeError, NameError, ValueError) as e:
+            # the code left the shape a rule was written for in a way the rule did not anticipate: fail closed, with the location
+            tb = traceback.extract_tb(e.__traceback__)[-1]
+            rep.anchor_missing(name, f'unrecognised-shape: {type(e).__name__}: {e} ({os.path.basename(tb.filename)}:{tb.lineno})')
     return prog, rep
 
 
